@@ -29,7 +29,7 @@ type FuncResult struct {
 }
 
 func newExec(P *Prog, fn *ssa.Function) *Exec {
-	return &Exec{P: P, root: fn, notes: map[string]bool{}, written: map[string]bool{}, tagFacts: map[int]*Term{}, immutable: map[string][]*Term{},
+	return &Exec{P: P, root: fn, notes: map[string]bool{}, written: map[string]bool{}, revealed: map[string]bool{}, tagFacts: map[int]*Term{}, immutable: map[string][]*Term{},
 		oblCount: map[string]int{}, inlined: map[string]bool{}, usedCts: map[string]bool{}, unchecked: map[string]bool{}, assumes: map[string]bool{}, atomicOps: map[string]bool{}}
 }
 
@@ -136,6 +136,11 @@ func (P *Prog) verifyFunction(fn *ssa.Function, safetyTags []string) (res *FuncR
 	ex.safetyTags = safetyTags
 	if ex.rct != nil && len(ex.rct.Safety) > 0 {
 		ex.safetyTags = ex.rct.Safety
+	}
+	if ex.rct != nil {
+		for _, r := range ex.rct.Reveal {
+			ex.revealed[r] = true
+		}
 	}
 	defer func() {
 		if r := recover(); r != nil {
@@ -300,6 +305,11 @@ func (ex *Exec) checkPost(fr *Frame, ret *ssa.Return, st *State, pc *Term, vals 
 		if cl.Kind != "ensures" || cl.Expr == nil {
 			continue
 		}
+		if hasStr(cl.Tags, "assumed") {
+			// assumed at call sites, not proved from the body: reported as an assumption
+			ex.assumes["ASSUMED postcondition of "+ex.P.relName(fr.fn)+" (not proved from its body): "+cl.Src] = true
+			continue
+		}
 		g := ex.evalBool(cl.Expr, env)
 		extra := ex.pendingAssume
 		ex.pendingAssume = nil
@@ -404,4 +414,13 @@ func sortStrings(m map[string]bool) []string {
 	}
 	sort.Strings(out)
 	return out
+}
+
+func hasStr(xs []string, x string) bool {
+	for _, y := range xs {
+		if y == x {
+			return true
+		}
+	}
+	return false
 }
